@@ -4,6 +4,7 @@ one answer per line.  `bad-op` means the line could not be interpreted (a harnes
 Each topic lives in its own module `Oracle.Cnn` with `St`, `init`, `step`.
 -/
 import Oracle.C01
+import Oracle.C01Lower
 import Oracle.C02
 import Oracle.C03
 import Oracle.C04
@@ -70,6 +71,7 @@ def dispatch (st : State) (line : String) : State × String :=
   | "c18" :: args => let (s, o) := C18.step st.c18 args; ({ st with c18 := s }, o)
   | "c19" :: args => let (s, o) := C19.step st.c19 args; ({ st with c19 := s }, o)
   | "c20" :: args => let (s, o) := C20.step st.c20 args; ({ st with c20 := s }, o)
+  | "c01low" :: args => (st, (C01Lower.step () args).2)
   | ["ping"] => (st, "pong")
   | _ => (st, "bad-op")
 
